@@ -130,9 +130,7 @@ def check_property(pid, tier, seed, procs, relock=False):
             n_obl += 1
             solver_time += o.get("time_s", 0)
             backends[o["backend"].split(" ")[0]] = backends.get(o["backend"].split(" ")[0], 0) + 1
-            isprop = bool(o.get("prop")) and o["prop"] == pid
-            if o.get("prop") and o["prop"] != pid:
-                isprop = False
+            isprop = bool(o.get("prop")) and pid in str(o["prop"]).split(",")      # a clause may belong to several properties ("C10,C03")
             if isprop:
                 n_prop += 1
                 seen_prop_obls.add(o["name"].split("~")[0])
